@@ -34,6 +34,15 @@ def build_num(s):
         a = np.array(s['a'], dtype=s.get('dt', 'float64'))
         if 'sh' in s:
             a = a.reshape(s['sh'])
+        lay = s.get('lay')          # same values, another memory layout
+        if lay == 'strided' and a.ndim >= 1:
+            a = np.repeat(a, 2, axis=-1)[..., ::2]
+        elif lay == 'neg' and a.ndim >= 1:
+            a = np.ascontiguousarray(a[::-1])[::-1]
+        elif lay == 'readonly':
+            a.setflags(write=False)
+        elif lay == 'F' and a.ndim >= 2:
+            a = np.asfortranarray(a)
         return a
     if isinstance(s, dict) and 'np' in s:      # numpy scalar of given dtype
         return np.dtype(s['np']).type(s['v'])
